@@ -1022,4 +1022,538 @@ theorem setDefault_inv (cfg : Cfg) (r : Reg) (d : Option (List Str)) (hinv : Inv
     Inv cfg (setDefault r d) :=
   ⟨hinv.nodup, hinv.rawDom, hinv.rawFull, hinv.used, hinv.ckeys, hinv.cvals, hinv.known⟩
 
+/-! ## 6. contents determine what can be observed -/
+
+/-- a registered profile: name, raw property definitions, macros -/
+structure Entry where
+  name : Str
+  props : Dict PVal
+  macros : Dict Str
+  deriving DecidableEq, Repr
+
+/-- what is registered, in registration order -/
+def contents (r : Reg) : List Entry :=
+  r.names.map fun n => { name := n, props := propsOf r.raw n, macros := macrosOf r.raw n }
+
+/-- everything the queries look at -/
+structure Obs where
+  names : List Str
+  compiled : Dict (Dict CVal)
+  known : List Str
+  default : Option (List Str)
+  deriving DecidableEq, Repr
+
+def obs (r : Reg) : Obs := { names := r.names, compiled := r.compiled, known := r.known, default := r.default }
+
+theorem contents_names (r : Reg) : (contents r).map (·.name) = r.names := by
+  simp [contents, List.map_map, Function.comp_def]
+
+theorem contents_eq_iff (r₁ r₂ : Reg) (h : contents r₁ = contents r₂) :
+    r₁.names = r₂.names ∧ ∀ n ∈ r₁.names, propsOf r₁.raw n = propsOf r₂.raw n ∧ macrosOf r₁.raw n = macrosOf r₂.raw n := by
+  have hn : r₁.names = r₂.names := by rw [← contents_names r₁, ← contents_names r₂, h]
+  refine ⟨hn, ?_⟩
+  intro n hn1
+  unfold contents at h
+  rw [← hn] at h
+  have := (List.map_inj_left.mp h) n hn1
+  simp only [Entry.mk.injEq, true_and] at this
+  exact this
+
+theorem obs_eq_of_contents (cfg : Cfg) (r₁ r₂ : Reg) (h₁ : Inv cfg r₁) (h₂ : Inv cfg r₂)
+    (hc : contents r₁ = contents r₂) (hd : r₁.default = r₂.default) : obs r₁ = obs r₂ := by
+  obtain ⟨hn, hpm⟩ := contents_eq_iff r₁ r₂ hc
+  have henv : envOf cfg.base r₁.raw r₁.names = envOf cfg.base r₂.raw r₂.names := by
+    rw [← hn]
+    exact envOf_congr _ _ _ _ (fun n hn1 => (hpm n hn1).2)
+  have hcomp : r₁.compiled = r₂.compiled := by
+    apply dict_ext
+    · rw [h₁.ckeys, h₂.ckeys, hn]
+    · rw [h₁.ckeys]; exact h₁.nodup
+    · intro k hk
+      rw [h₁.ckeys] at hk
+      obtain ⟨ex1, ha, hb⟩ := h₁.cvals k hk
+      obtain ⟨ex2, hc', hd'⟩ := h₂.cvals k (hn ▸ hk)
+      rw [henv, (hpm k hk).1, hc'] at ha
+      cases ha
+      rw [hb, hd']
+  simp only [obs, hn, hcomp, h₁.known, h₂.known, hd]
+
+theorem validate_obs (accepts : CVal → Str → Bool) (r₁ r₂ : Reg) (h : obs r₁ = obs r₂) (n v : Str) :
+    validate accepts r₁ n v = validate accepts r₂ n v := by
+  simp only [obs, Obs.mk.injEq] at h
+  simp only [validate, h.1, h.2.1]
+
+theorem validateWithProfile_obs (accepts : CVal → Str → Bool) (r₁ r₂ : Reg) (h : obs r₁ = obs r₂) (n v : Str)
+    (ps : Option (List Str)) : validateWithProfile accepts r₁ n v ps = validateWithProfile accepts r₂ n v ps := by
+  cases r₁; cases r₂
+  simp only [obs, Obs.mk.injEq] at h
+  obtain ⟨rfl, rfl, rfl, rfl⟩ := h
+  rfl
+
+theorem propertiesByProfile_obs (r₁ r₂ : Reg) (h : obs r₁ = obs r₂) (ps : Option (List Str)) :
+    propertiesByProfile r₁ ps = propertiesByProfile r₂ ps := by
+  simp only [obs, Obs.mk.injEq] at h
+  simp only [propertiesByProfile, h.1, h.2.1]
+
+/-! ## 7. histories -/
+
+/-- The region in which the code keeps its invariant and nothing fails to expand. Outside it lie the known
+findings: `addProfile` of a registered name with macros, `addProfiles` (bulk add) — see `addProfiles_inv_empty` for
+the empty registry —, `removeProfile(all)` with a non-base macro cache, and operations after which some
+definition no longer expands. -/
+def Good (cfg : Cfg) (r : Reg) : Op → Prop
+  | .add p ps ms => (p ∉ r.names ∨ truthy ms = false) ∧
+      Expandable cfg (dset r.raw p { props := some ps, macros := storedMacros r.raw p ms }) (addNames r.names p)
+  | .addMany _ => False
+  | .remove (some p) => p ∈ r.names → Expandable cfg (derase r.raw p) (r.names.erase p)
+  | .remove none => True
+  | .removeAll => SameEnv (envOf cfg.base r.raw r.names) cfg.base
+  | .setDefault _ => True
+
+def GoodRun (cfg : Cfg) : Reg → List Op → Prop
+  | _, [] => True
+  | r, op :: ops => Good cfg r op ∧ GoodRun cfg (step cfg r op).1 ops
+
+/-- the same operations on the contents alone -/
+def cstep (c : List Entry) : Op → List Entry
+  | .add n ps ms =>
+      if n ∈ c.map (·.name) then
+        c.map fun e => if e.name = n then
+          { name := n, props := ps, macros := if truthy ms then ms.getD [] else e.macros } else e
+      else c ++ [{ name := n, props := ps, macros := if truthy ms then ms.getD [] else [] }]
+  | .addMany _ => c
+  | .remove (some n) => c.filter fun e => e.name ≠ n
+  | .remove none => c
+  | .removeAll => []
+  | .setDefault _ => c
+
+def dstep (d : Option (List Str)) : Op → Option (List Str)
+  | .setDefault d' => d'
+  | _ => d
+
+def crun (c : List Entry) : List Op → List Entry
+  | [] => c
+  | op :: ops => crun (cstep c op) ops
+
+def drun (d : Option (List Str)) : List Op → Option (List Str)
+  | [] => d
+  | op :: ops => drun (dstep d op) ops
+
+theorem step_good (cfg : Cfg) (r : Reg) (op : Op) (hinv : Inv cfg r) (hg : Good cfg r op) :
+    Inv cfg (step cfg r op).1 ∧ contents (step cfg r op).1 = cstep (contents r) op ∧
+    (step cfg r op).1.default = dstep r.default op := by
+  cases op with
+  | add p ps ms =>
+    obtain ⟨hguard, hexp⟩ := hg
+    obtain ⟨_, hi, hn, hr, hd⟩ := addProfile_inv cfg r p ps ms hinv hguard hexp
+    refine ⟨hi, ?_, hd⟩
+    show contents (addProfile cfg r p ps ms).1 = _
+    unfold contents cstep
+    rw [hn, hr]
+    simp only [List.map_map, Function.comp_def, List.map_id']
+    by_cases hp : p ∈ r.names
+    · have hf : truthy ms = false := by
+        cases hguard with
+        | inl h => exact absurd hp h
+        | inr h => exact h
+      simp only [addNames, hp, if_true, hf, Bool.false_eq_true, if_false]
+      apply List.map_congr_left
+      intro n _
+      by_cases hnp : n = p
+      · subst hnp
+        simp [propsOf_dset_self, macrosOf_dset_self, storedMacros, hf]
+      · have : ¬ p = n := fun e => hnp e.symm
+        simp [hnp, propsOf_dset_ne _ _ _ _ this, macrosOf_dset_ne _ _ _ _ this]
+    · simp only [addNames, hp, if_false, List.map_append, List.map_cons, List.map_nil]
+      have hnone : macrosOf r.raw p = [] := by
+        have : dget r.raw p = none := by
+          cases hd' : dget r.raw p with
+          | none => rfl
+          | some e => exact absurd ((hinv.rawDom p).mp (by simp [hd'])) hp
+        simp [macrosOf, this]
+      congr 1
+      · apply List.map_congr_left
+        intro n hn'
+        have : ¬ p = n := fun e => hp (e ▸ hn')
+        simp [propsOf_dset_ne _ _ _ _ this, macrosOf_dset_ne _ _ _ _ this]
+      · simp only [propsOf_dset_self, macrosOf_dset_self, storedMacros, hnone]
+        try (split <;> rfl)
+  | addMany l => exact absurd hg (by simp [Good])
+  | remove q =>
+    cases q with
+    | none => exact ⟨hinv, rfl, rfl⟩
+    | some p =>
+      by_cases hp : p ∈ r.names
+      · obtain ⟨_, hi, hn, hr, hd⟩ := removeProfile_inv cfg r p hinv hp (hg hp)
+        refine ⟨hi, ?_, hd⟩
+        show contents (removeProfile cfg r (some p)).1 = (contents r).filter (fun e => e.name ≠ p)
+        unfold contents
+        rw [hn, hr, hinv.nodup.erase_eq_filter p, List.filter_map]
+        have : List.filter ((fun e : Entry => decide (e.name ≠ p)) ∘ fun n =>
+            ({ name := n, props := propsOf r.raw n, macros := macrosOf r.raw n } : Entry)) r.names
+            = List.filter (fun x => x != p) r.names := by
+          apply List.filter_congr
+          intro x _
+          by_cases hx : x = p <;> simp [hx]
+        rw [this]
+        apply List.map_congr_left
+        intro n hn'
+        have hnp : n ≠ p := by
+          intro e; simp [e] at hn'
+        simp [propsOf_derase_ne _ _ _ hnp, macrosOf_derase_ne _ _ _ hnp]
+      · have hu := removeProfile_unknown cfg r p hinv hp
+        refine ⟨by show Inv cfg (removeProfile cfg r (some p)).1; rw [hu]; exact hinv, ?_, ?_⟩
+        · show contents (removeProfile cfg r (some p)).1 = _
+          rw [hu]
+          show contents r = (contents r).filter (fun e => e.name ≠ p)
+          unfold contents
+          rw [List.filter_map]
+          symm
+          have : List.filter ((fun e : Entry => decide (e.name ≠ p)) ∘ fun n =>
+              ({ name := n, props := propsOf r.raw n, macros := macrosOf r.raw n } : Entry)) r.names = r.names := by
+            rw [List.filter_eq_self]
+            intro x hx
+            have : x ≠ p := fun e => hp (e ▸ hx)
+            simp [this]
+          rw [this]
+        · show (removeProfile cfg r (some p)).1.default = _
+          rw [hu]; rfl
+  | removeAll =>
+    exact ⟨removeAll_inv_partial cfg r hinv hg, rfl, rfl⟩
+  | setDefault d =>
+    exact ⟨setDefault_inv cfg r d hinv, rfl, rfl⟩
+
+theorem run_good (cfg : Cfg) (r : Reg) (ops : List Op) (hinv : Inv cfg r) (hg : GoodRun cfg r ops) :
+    Inv cfg (run cfg r ops) ∧ contents (run cfg r ops) = crun (contents r) ops ∧
+    (run cfg r ops).default = drun r.default ops := by
+  induction ops generalizing r with
+  | nil => exact ⟨hinv, rfl, rfl⟩
+  | cons op ops ih =>
+    obtain ⟨h1, h2⟩ := hg
+    obtain ⟨hi, hc, hd⟩ := step_good cfg r op hinv h1
+    obtain ⟨a, b, c⟩ := ih (step cfg r op).1 hi h2
+    exact ⟨a, by rw [show run cfg r (op :: ops) = run cfg (step cfg r op).1 ops from rfl, b, hc]; rfl,
+      by rw [show run cfg r (op :: ops) = run cfg (step cfg r op).1 ops from rfl, c, hd]; rfl⟩
+
+/-- the operation names profile `p` -/
+def Op.mentions (p : Str) : Op → Prop
+  | .add n _ _ => n = p
+  | .addMany l => p ∈ l.map (·.name)
+  | .remove (some n) => n = p
+  | .remove none => False
+  | .removeAll => False
+  | .setDefault _ => False
+
+theorem map_filter_comm (f : Entry → Entry) (q : Entry → Bool) (c : List Entry) (hf : ∀ e, q (f e) = q e) :
+    (c.map f).filter q = (c.filter q).map f := by
+  induction c with
+  | nil => rfl
+  | cons a t ih =>
+    simp only [List.map_cons, List.filter_cons, hf a]
+    split <;> simp [ih]
+
+theorem cstep_filter (c : List Entry) (p : Str) (op : Op) (h : ¬ op.mentions p) :
+    (cstep c op).filter (fun e => e.name ≠ p) = cstep (c.filter fun e => e.name ≠ p) op := by
+  cases op with
+  | add n ps ms =>
+    have hnp : n ≠ p := h
+    simp only [cstep]
+    have hmem : n ∈ (c.filter fun e => e.name ≠ p).map (·.name) ↔ n ∈ c.map (·.name) := by
+      simp only [List.mem_map, List.mem_filter]
+      constructor
+      · rintro ⟨e, ⟨he, _⟩, hn⟩; exact ⟨e, he, hn⟩
+      · rintro ⟨e, he, hn⟩; exact ⟨e, ⟨he, by simp [hn, hnp]⟩, hn⟩
+    by_cases hin : n ∈ c.map (·.name)
+    · simp only [hin, if_true, hmem.mpr hin]
+      apply map_filter_comm
+      intro e
+      by_cases he : e.name = n
+      · simp [he, hnp]
+      · simp [he]
+    · have hin2 : n ∉ (c.filter fun e => e.name ≠ p).map (·.name) := fun hx => hin (hmem.mp hx)
+      simp only [hin, if_false, hin2, List.filter_append]
+      congr 1
+      simp [hnp]
+  | addMany l => rfl
+  | remove q =>
+    cases q with
+    | none => rfl
+    | some n =>
+      simp only [cstep, List.filter_filter]
+      apply List.filter_congr
+      intro x _
+      simp [Bool.and_comm]
+  | removeAll => rfl
+  | setDefault d => rfl
+
+theorem crun_filter (c : List Entry) (p : Str) (ops : List Op) (h : ∀ op ∈ ops, ¬ op.mentions p) :
+    (crun c ops).filter (fun e => e.name ≠ p) = crun (c.filter fun e => e.name ≠ p) ops := by
+  induction ops generalizing c with
+  | nil => rfl
+  | cons op ops ih =>
+    simp only [crun]
+    rw [ih _ (fun o ho => h o (by simp [ho])), cstep_filter c p op (h op (by simp))]
+
+theorem crun_append (c : List Entry) (a b : List Op) : crun c (a ++ b) = crun (crun c a) b := by
+  induction a generalizing c with
+  | nil => rfl
+  | cons op ops ih => simp only [List.cons_append, crun]; exact ih _
+
+theorem drun_append (d : Option (List Str)) (a b : List Op) : drun d (a ++ b) = drun (drun d a) b := by
+  induction a generalizing d with
+  | nil => rfl
+  | cons op ops ih => simp only [List.cons_append, drun]; exact ih _
+
+/-! ## 8. what `validate` and `validateWithProfile` compute -/
+
+/-- profile `p` defines property `name` and its compiled definition accepts `value` -/
+def AcceptsIn (accepts : CVal → Str → Bool) (compiled : Dict (Dict CVal)) (name value p : Str) : Prop :=
+  ∃ d c, dget compiled p = some d ∧ dget d name = some c ∧ accepts c value = true
+
+theorem validateLoop_spec (accepts : CVal → Str → Bool) (compiled : Dict (Dict CVal)) (name value : Str)
+    (ps : List Str) (h : ∀ p ∈ ps, (dget compiled p).isSome) :
+    ∃ b, validateLoop accepts compiled name value ps = .ok b ∧
+      (b = true ↔ ∃ p ∈ ps, AcceptsIn accepts compiled name value p) := by
+  induction ps with
+  | nil => exact ⟨false, rfl, by simp⟩
+  | cons a t ih =>
+    obtain ⟨b, hb, hiff⟩ := ih (fun p hp => h p (by simp [hp]))
+    have ha := h a (by simp)
+    cases hd : dget compiled a with
+    | none => simp [hd] at ha
+    | some d =>
+      simp only [validateLoop, hd]
+      cases hc : dget d name with
+      | none =>
+        refine ⟨b, hb, ?_⟩
+        rw [hiff]
+        constructor
+        · rintro ⟨p, hp, hacc⟩; exact ⟨p, by simp [hp], hacc⟩
+        · rintro ⟨p, hp, hacc⟩
+          simp only [List.mem_cons] at hp
+          cases hp with
+          | inl e =>
+            subst e
+            obtain ⟨d', c', h1, h2, _⟩ := hacc
+            rw [hd] at h1; cases h1
+            rw [hc] at h2; cases h2
+          | inr e => exact ⟨p, e, hacc⟩
+      | some c =>
+        simp only
+        by_cases hacc : accepts c value = true
+        · simp only [hacc, if_true]
+          exact ⟨true, rfl, by simp only [true_iff]; exact ⟨a, by simp, d, c, hd, hc, hacc⟩⟩
+        · simp only [hacc, Bool.false_eq_true, if_false]
+          refine ⟨b, hb, ?_⟩
+          rw [hiff]
+          constructor
+          · rintro ⟨p, hp, hx⟩; exact ⟨p, by simp [hp], hx⟩
+          · rintro ⟨p, hp, hx⟩
+            simp only [List.mem_cons] at hp
+            cases hp with
+            | inl e =>
+              subst e
+              obtain ⟨d', c', h1, h2, h3⟩ := hx
+              rw [hd] at h1; cases h1
+              rw [hc] at h2; cases h2
+              exact absurd h3 hacc
+            | inr e => exact ⟨p, e, hx⟩
+
+theorem firstAccepting_spec (accepts : CVal → Str → Bool) (compiled : Dict (Dict CVal)) (name value : Str)
+    (ps : List Str) (h : ∀ p ∈ ps, (dget compiled p).isSome) :
+    ∃ o, firstAccepting accepts compiled name value ps = .ok o ∧
+      (o = none ↔ ∀ p ∈ ps, ¬ AcceptsIn accepts compiled name value p) ∧
+      (∀ p, o = some p → p ∈ ps ∧ AcceptsIn accepts compiled name value p) := by
+  induction ps with
+  | nil => exact ⟨none, rfl, by simp, by simp⟩
+  | cons a t ih =>
+    obtain ⟨o, ho, h1, h2⟩ := ih (fun p hp => h p (by simp [hp]))
+    have ha := h a (by simp)
+    cases hd : dget compiled a with
+    | none => simp [hd] at ha
+    | some d =>
+      simp only [firstAccepting, hd]
+      cases hc : dget d name with
+      | none =>
+        simp only
+        refine ⟨o, ho, ?_, fun p hp => ⟨by simp [(h2 p hp).1], (h2 p hp).2⟩⟩
+        rw [h1]
+        constructor
+        · intro hall p hp
+          simp only [List.mem_cons] at hp
+          cases hp with
+          | inl e =>
+            subst e; rintro ⟨d', c', x1, x2, _⟩
+            rw [hd] at x1; cases x1; rw [hc] at x2; cases x2
+          | inr e => exact hall p e
+        · intro hall p hp; exact hall p (by simp [hp])
+      | some c =>
+        simp only
+        by_cases hacc : accepts c value = true
+        · simp only [hacc, if_true]
+          refine ⟨some a, rfl, ?_, ?_⟩
+          · simp only [reduceCtorEq, false_iff]
+            exact fun hall => hall a (by simp) ⟨d, c, hd, hc, hacc⟩
+          · intro p hp; cases hp; exact ⟨by simp, d, c, hd, hc, hacc⟩
+        · simp only [hacc, Bool.false_eq_true, if_false]
+          refine ⟨o, ho, ?_, fun p hp => ⟨by simp [(h2 p hp).1], (h2 p hp).2⟩⟩
+          rw [h1]
+          constructor
+          · intro hall p hp
+            simp only [List.mem_cons] at hp
+            cases hp with
+            | inl e =>
+              subst e; rintro ⟨d', c', x1, x2, x3⟩
+              rw [hd] at x1; cases x1; rw [hc] at x2; cases x2; exact hacc x3
+            | inr e => exact hall p e
+          · intro hall p hp; exact hall p (by simp [hp])
+
+theorem dget_some_mem {α : Type} (d : Dict α) (k : Str) (v : α) (h : dget d k = some v) : (k, v) ∈ d := by
+  induction d with
+  | nil => simp [dget] at h
+  | cons x t ih =>
+    obtain ⟨k', v'⟩ := x
+    simp only [dget] at h
+    by_cases hk : k' = k
+    · simp only [hk, if_true, Option.some.injEq] at h; subst h; subst hk; simp
+    · simp only [hk, if_false] at h; simp [ih h]
+
+theorem not_known_not_defined (compiled : Dict (Dict CVal)) (name p : Str) (d : Dict CVal)
+    (hk : name ∉ knownOf compiled) (hd : dget compiled p = some d) : dget d name = none := by
+  rw [dget_none_iff_not_mem]
+  intro hmem
+  apply hk
+  unfold knownOf
+  rw [List.mem_flatMap]
+  exact ⟨(p, d), dget_some_mem _ _ _ hd, hmem⟩
+
+theorem compiled_isSome (cfg : Cfg) (r : Reg) (hinv : Inv cfg r) (p : Str) (hp : p ∈ r.names) :
+    (dget r.compiled p).isSome := by
+  rw [dget_isSome_iff_mem_dkeys, hinv.ckeys]; exact hp
+
+/-- T14.3 -/
+theorem validate_spec (cfg : Cfg) (accepts : CVal → Str → Bool) (r : Reg) (hinv : Inv cfg r) (name value : Str) :
+    ∃ b, validate accepts r name value = .ok b ∧
+      (b = true ↔ ∃ p ∈ r.names, AcceptsIn accepts r.compiled name value p) :=
+  validateLoop_spec accepts r.compiled name value r.names (fun p hp => compiled_isSome cfg r hinv p hp)
+
+/-- T14.4 -/
+theorem validateWithProfile_spec (cfg : Cfg) (accepts : CVal → Str → Bool) (r : Reg) (hinv : Inv cfg r)
+    (hdef : ∀ p ∈ getDefault r, p ∈ r.names) (name value : Str) :
+    ∃ vd, validateWithProfile accepts r name value none = .ok vd ∧
+      (vd.valid = true ↔ ∃ p ∈ r.names, AcceptsIn accepts r.compiled name value p) ∧
+      (vd.matching = true ↔ ∃ p ∈ getDefault r, AcceptsIn accepts r.compiled name value p) := by
+  unfold validateWithProfile
+  by_cases hk : name ∈ r.known
+  · simp only [hk, not_true_eq_false, if_false, truthy, Bool.false_eq_true]
+    obtain ⟨o1, ho1, h1a, h1b⟩ := firstAccepting_spec accepts r.compiled name value (getDefault r).reverse
+      (fun p hp => compiled_isSome cfg r hinv p (hdef p (by simpa using hp)))
+    obtain ⟨o2, ho2, h2a, h2b⟩ := firstAccepting_spec accepts r.compiled name value
+      (r.names.filter (fun p => p ∉ getDefault r))
+      (fun p hp => compiled_isSome cfg r hinv p (List.mem_filter.mp hp).1)
+    simp only [ho1]
+    cases o1 with
+    | some p =>
+      obtain ⟨hp1, hp2⟩ := h1b p rfl
+      have hp1' : p ∈ getDefault r := by simpa using hp1
+      exact ⟨⟨true, true, [p]⟩, rfl, by simp only [true_iff]; exact ⟨p, hdef p hp1', hp2⟩,
+        by simp only [true_iff]; exact ⟨p, hp1', hp2⟩⟩
+    | none =>
+      have hnone := h1a.mp rfl
+      simp only [ho2]
+      cases o2 with
+      | some p =>
+        obtain ⟨hp1, hp2⟩ := h2b p rfl
+        refine ⟨⟨true, false, [p]⟩, rfl, by simp only [true_iff]; exact ⟨p, (List.mem_filter.mp hp1).1, hp2⟩, ?_⟩
+        simp only [Bool.false_eq_true, false_iff, not_exists, not_and]
+        intro q hq; exact hnone q (by simpa using hq)
+      | none =>
+        have hnone2 := h2a.mp rfl
+        refine ⟨⟨false, false, _⟩, rfl, ?_, ?_⟩
+        · simp only [Bool.false_eq_true, false_iff, not_exists, not_and]
+          intro q hq
+          by_cases hqd : q ∈ getDefault r
+          · exact hnone q (by simpa using hqd)
+          · exact hnone2 q (List.mem_filter.mpr ⟨hq, by simpa using hqd⟩)
+        · simp only [Bool.false_eq_true, false_iff, not_exists, not_and]
+          intro q hq; exact hnone q (by simpa using hq)
+  · simp only [hk, not_false_eq_true, if_true]
+    have hno : ∀ p, ¬ AcceptsIn accepts r.compiled name value p := by
+      rintro p ⟨d, c, h1, h2, _⟩
+      have := not_known_not_defined r.compiled name p d (by rw [← hinv.known]; exact hk) h1
+      rw [this] at h2; cases h2
+    refine ⟨⟨false, false, []⟩, rfl, ?_, ?_⟩ <;>
+    · simp only [Bool.false_eq_true, false_iff, not_exists, not_and]
+      intro q _; exact hno q
+
+/-! ## 9. add … remove, in any interleaving -/
+
+theorem run_append (cfg : Cfg) (r : Reg) (a b : List Op) : run cfg r (a ++ b) = run cfg (run cfg r a) b := by
+  induction a generalizing r with
+  | nil => rfl
+  | cons op ops ih => simp only [List.cons_append, run]; exact ih _
+
+theorem drun_no_setDefault (d : Option (List Str)) (op : Op) (h : ∀ d', op ≠ .setDefault d') : dstep d op = d := by
+  cases op <;> first | rfl | exact absurd rfl (h _)
+
+theorem add_remove_contents (c : List Entry) (p : Str) (ps : Dict PVal) (ms : Option (Dict Str)) (ops : List Op)
+    (hp : p ∉ c.map (·.name)) (hno : ∀ op ∈ ops, ¬ op.mentions p) :
+    crun c ([.add p ps ms] ++ ops ++ [.remove (some p)]) = crun c ops := by
+  have hc : c.filter (fun e => e.name ≠ p) = c := by
+    rw [List.filter_eq_self]
+    intro e he
+    have : e.name ≠ p := fun h => hp (List.mem_map.mpr ⟨e, he, h⟩)
+    simp [this]
+  have hnot : p ∉ (crun c ops).map (·.name) := by
+    -- no operation that does not mention p can register p
+    have : ∀ (c : List Entry) (ops : List Op), p ∉ c.map (·.name) → (∀ op ∈ ops, ¬ op.mentions p) →
+        p ∉ (crun c ops).map (·.name) := by
+      intro c ops
+      induction ops generalizing c with
+      | nil => intro h _; exact h
+      | cons op ops ih =>
+        intro h hn
+        apply ih (cstep c op) _ (fun o ho => hn o (by simp [ho]))
+        have hop := hn op (by simp)
+        cases op with
+        | add n ps' ms' =>
+          have hnp : n ≠ p := hop
+          simp only [cstep]
+          split
+          · intro hx
+            obtain ⟨e, he, hn'⟩ := List.mem_map.mp hx
+            obtain ⟨e0, he0, hfe⟩ := List.mem_map.mp he
+            by_cases h0 : e0.name = n
+            · simp only [h0, if_true] at hfe
+              rw [← hfe] at hn'
+              exact hnp hn'
+            · simp only [h0, if_false] at hfe
+              rw [← hfe] at hn'
+              exact h (List.mem_map.mpr ⟨e0, he0, hn'⟩)
+          · simp only [List.map_append, List.map_cons, List.map_nil, List.mem_append, List.mem_singleton, not_or]
+            exact ⟨h, fun e => hnp e.symm⟩
+        | addMany l => exact h
+        | remove q =>
+          cases q with
+          | none => exact h
+          | some n =>
+            intro hx
+            obtain ⟨e, he, hn'⟩ := List.mem_map.mp hx
+            exact h (List.mem_map.mpr ⟨e, (List.mem_filter.mp he).1, hn'⟩)
+        | removeAll => simp [cstep]
+        | setDefault d => exact h
+    exact this c ops hp hno
+  rw [List.append_assoc, crun_append, crun_append]
+  show (crun (crun (cstep c (.add p ps ms)) []) ops).filter (fun e => e.name ≠ p) = _
+  simp only [crun]
+  rw [crun_filter _ p ops hno]
+  congr 1
+  simp only [cstep, hp, if_false, List.filter_append, hc]
+  simp
+
+theorem add_remove_default (d : Option (List Str)) (p : Str) (ps : Dict PVal) (ms : Option (Dict Str))
+    (ops : List Op) : drun d ([.add p ps ms] ++ ops ++ [.remove (some p)]) = drun d ops := by
+  rw [List.append_assoc, drun_append, drun_append]
+  rfl
+
 end CssVerif.Profiles
